@@ -146,13 +146,12 @@ Definition depends_on_row (off stride n_in r : nat) (deps : list N) : bool :=
 
 (* rows of the output that change when input row r is perturbed *)
 Definition rows_changed (off stride n_in : nat) (Y : list (list N)) (r : nat) : list nat :=
-  filter (fun s => match nth_error Y s with Some deps => depends_on_row off stride n_in r deps | None => false end)
-         (seq 0 (length Y)).
+  map fst (filter (fun p => depends_on_row off stride n_in r (snd p)) (combine (seq 0 (length Y)) Y)).
 
 (* input column c influences the output of its own row, for some row *)
 Definition col_reach (off stride n_in : nat) (Y : list (list N)) : list bool :=
-  map (fun c => existsb (fun r => match nth_error Y r with Some deps => membN (cell_id off stride r c) deps | None => false end)
-                        (seq 0 (length Y))) (seq 0 n_in).
+  map (fun c => existsb (fun p => membN (cell_id off stride (fst p) c) (snd p)) (combine (seq 0 (length Y)) Y))
+      (seq 0 n_in).
 
 (* [c][c'] : input column c influences output column c' (of the same row, some row) *)
 Definition col_fp (off stride n_in n_out : nat) (Y : pt3) : list (list bool) :=
@@ -186,8 +185,17 @@ Definition pos_fp (cols : nat) (T : pmat) : list (list bool) :=
 
 (* C14: the probes of a model; measured_rows from the final output, one measured matrix per probe
    (None = the harness could not hook that tensor) *)
+(* every measured dependency is predicted *)
+Definition bmat_leb (a b : list (list bool)) : bool :=
+  (length a =? length b) &&
+  forallb (fun p => (length (fst p) =? length (snd p)) &&
+                    forallb (fun q => implb (fst q) (snd q)) (combine (fst p) (snd p))) (combine a b).
+
+(* a measured probe: (complete, matrix).  complete = true: every dependency the architecture allows was measured
+   within the trials -- compared EXACTLY; false (saturated arithmetic hid some dependency of an intermediate
+   tensor on extreme data): only soundness, measured <= predicted.  The final output is always compared exactly. *)
 Definition model_fp_ok (cols : nat) (Ps : option (list pmat)) (B : nat)
-           (measured_rows : list (nat * list nat)) (measured : list (option (list (list bool)))) : bool :=
+           (measured_rows : list (nat * list nat)) (measured : list (option (bool * list (list bool)))) : bool :=
   match Ps with
   | Some Ps =>
       match rev Ps with
@@ -195,8 +203,13 @@ Definition model_fp_ok (cols : nat) (Ps : option (list pmat)) (B : nat)
       | [] => false
       end
       && (length Ps =? length measured)
-      && forallb (fun p => match snd p with Some m => bmat_eqb (pos_fp cols (fst p)) m | None => true end)
+      && forallb (fun p => match snd p with
+                           | Some (true, m) => bmat_eqb (pos_fp cols (fst p)) m
+                           | Some (false, m) => bmat_leb m (pos_fp cols (fst p))
+                           | None => true
+                           end)
                  (combine Ps measured)
+      && match rev measured with Some (false, _) :: _ => false | _ => true end
   | None => false
   end.
 
